@@ -25,6 +25,10 @@ Section Divider.
     if (t <? nzero N) || (none_ N <? t) then None
     else Some (vadd N e1 (vscale N (vsub N e2 e1) t)).
 
+  (* face_side_wrt_plane: the side of the plane (p, n) on which the centroid of the face lies (strictly) *)
+  Definition face_side (p1 p2 p3 p n : vec) : bool :=
+    nzero N <? vdot N (vsub N (vdivs N (vadd N (vadd N p1 p2) p3) (nofZ N 3)) p) n.
+
   (* add_point_to_face: the point is inserted between the two consecutive (cyclically) nodes a and b *)
   Definition is_edge (x y a b : nat) : bool := (Nat.eqb x a && Nat.eqb y b) || (Nat.eqb x b && Nat.eqb y a).
   Fixpoint insert_at {A} (l : list A) (j : nat) (x : A) : list A :=
